@@ -1,0 +1,22 @@
+//go:build verif
+
+// Contracts for govc (contract-based deductive verification); comment-only, compiled only with -tags verif.
+package flows
+
+// ---- last-block clamp (C17)
+
+//@ func (f *MaxL2BlockNumberLimiter) AdaptCertificate
+//@   props C17
+//@   requires f != nil
+//@   requires buildParams != nil ==> buildParams.FromBlock <= buildParams.ToBlock
+//@   ensures[disabled] f.maxL2BlockNumber == 0 ==> result0 == buildParams && result1 == nil
+//@   ensures[error-no-params] result1 != nil ==> result0 == nil
+//@   ensures[clamped] (f.maxL2BlockNumber > 0 && result1 == nil) ==> result0 != nil && result0.ToBlock <= f.maxL2BlockNumber && result0.FromBlock == old(buildParams.FromBlock)
+//@   ensures[largest] (f.maxL2BlockNumber > 0 && result1 == nil) ==> result0.ToBlock == ite(old(buildParams.ToBlock) <= f.maxL2BlockNumber, old(buildParams.ToBlock), f.maxL2BlockNumber)
+//@   ensures[untouched-when-allowed] (f.maxL2BlockNumber > 0 && buildParams != nil && old(buildParams.ToBlock) <= f.maxL2BlockNumber) ==> result0 == buildParams && result1 == nil
+//@   ensures[cut-bridges] (result1 == nil && result0 != buildParams) ==> len(result0.Bridges) == cntB(old(seq(buildParams.Bridges)), result0.FromBlock, result0.ToBlock, old(len(buildParams.Bridges)))
+//@   ensures[cut-bridges-order] (result1 == nil && result0 != buildParams) ==> forall(k, 0, old(len(buildParams.Bridges)), keepBlk(old(buildParams.Bridges[k]).BlockNum, result0.FromBlock, result0.ToBlock) ==> cntB(old(seq(buildParams.Bridges)), result0.FromBlock, result0.ToBlock, k) < len(result0.Bridges) && result0.Bridges[cntB(old(seq(buildParams.Bridges)), result0.FromBlock, result0.ToBlock, k)] == old(buildParams.Bridges[k]))
+//@   ensures[cut-claims] (result1 == nil && result0 != buildParams) ==> len(result0.Claims) == cntC(old(seq(buildParams.Claims)), result0.FromBlock, result0.ToBlock, old(len(buildParams.Claims)))
+//@   ensures[cut-claims-order] (result1 == nil && result0 != buildParams) ==> forall(k, 0, old(len(buildParams.Claims)), keepBlk(old(buildParams.Claims[k]).BlockNum, result0.FromBlock, result0.ToBlock) ==> cntC(old(seq(buildParams.Claims)), result0.FromBlock, result0.ToBlock, k) < len(result0.Claims) && result0.Claims[cntC(old(seq(buildParams.Claims)), result0.FromBlock, result0.ToBlock, k)] == old(buildParams.Claims[k]))
+//@   ensures[retry-not-resized] (f.maxL2BlockNumber > 0 && buildParams != nil && old(buildParams.ToBlock) > f.maxL2BlockNumber && old(buildParams.RetryCount) > 0 && old(buildParams.LastSentCertificate) != nil && !f.allowToResizeRetryCert) ==> result1 != nil
+//@   ensures[input-unchanged] buildParams != nil ==> buildParams.FromBlock == old(buildParams.FromBlock) && buildParams.ToBlock == old(buildParams.ToBlock) && buildParams.Bridges == old(buildParams.Bridges) && buildParams.Claims == old(buildParams.Claims)
